@@ -1110,7 +1110,27 @@ func (x *btCtx) checkShapeAndLength(rel string) {
 				ok = false
 				c.violated("C03.length", "(*BTree).deleteItem", fn.Pos(), fmt.Sprintf("length decreases %d times on a path where the remove %s an item", dec, map[bool]string{true: "found", false: "did not find"}[found]), c.witness(t, len(t.Events)-1)...)
 			}
-			if rem != nil && t.Ret[0].Key() != rem.Res.Key() {
+			// the root is re-examined after every remove — also when nothing was found: a remove of an absent key can
+			// still have merged the root's last two children, leaving a root without items that must be replaced by
+			// its only child (otherwise the empty-root guard turns every later delete into a no-op)
+			if rem != nil {
+				collapseTested := false
+				seenRem := false
+				for _, e := range t.Events {
+					if e == rem {
+						seenRem = true
+						continue
+					}
+					if seenRem && e.Kind == EvBranch && e.Cond.Kind == KBin && e.Cond.Args[0].Kind == KOp && e.Cond.Args[0].Name == "len" && strings.Contains(e.Cond.Args[0].Key(), ".items") && strings.Contains(e.Cond.Args[0].Key(), ".root") {
+						collapseTested = true
+					}
+				}
+				if !collapseTested && ok {
+					ok = false
+					c.violated("C03.shape-coupling", "(*BTree).deleteItem root collapse", fn.Pos(), "a path returns after remove without re-examining the root (len(root.items) == 0 with children): a remove that merged the root's children leaves an item-less root in place and later deletes silently do nothing", c.witness(t, len(t.Events)-1)...)
+				}
+			}
+			if rem != nil && t.Ret[0].Key() != rem.Res.Key() && !(notFound && t.Ret[0].isNilConst()) {
 				ok = false
 				c.violated("C03.length", "(*BTree).deleteItem", fn.Pos(), "the item returned is not the item removed", c.witness(t, len(t.Events)-1)...)
 			}
